@@ -368,13 +368,53 @@ func judgeTeardown(c Case) ([]finding, string, []string) {
 		return []finding{{"harness", "delete owner: " + err.Error()}}, "", trace
 	}
 	outcome := "teardown"
+	base := b.w.Clone()
+	nFirst := 0
 	for i := 0; i < 4 && b.w.S.Objs[b.ownKey] != nil; i++ {
 		pass := b.w.Reconcile(b.ctrl, b.nn, nil)
+		if i == 0 {
+			nFirst = len(pass.Reqs)
+		}
 		trace = append(trace, pass.Trace()...)
 		if pass.Panic != "" {
 			return []finding{{"panic", "panic: " + pass.Panic}}, "panic", trace
 		}
 		out = append(out, judgeScope(c, b, pass)...)
+	}
+	// the same teardown with one request of its first pass answered 500 / 409 without effect (the
+	// preflight dry run among them), for every request: whatever the fault, nothing outside the
+	// owner's namespace is written
+	if ownerNamespaced(c.Owner) {
+		foreign := false
+		for _, p := range c.Phases {
+			for _, k := range p {
+				if k == "F" || k == "C0" || k == "C1" || k == "C2" {
+					foreign = true
+				}
+			}
+		}
+		for at := 0; foreign && at < nFirst; at++ {
+			for _, fk := range []world.FaultKind{world.ErrBefore, world.ConflictBefore} {
+				w2 := base.Clone()
+				for i := 0; i < 3 && w2.S.Objs[b.ownKey] != nil; i++ {
+					var plan *world.Plan
+					if i == 0 {
+						plan = &world.Plan{FaultAt: at, Fault: fk}
+					}
+					pass := w2.Reconcile(b.ctrl, b.nn, plan)
+					if pass.Panic != "" {
+						return []finding{{"panic", "panic: " + pass.Panic}}, "panic", append(trace, pass.Trace()...)
+					}
+					if f := judgeScope(c, b, pass); len(f) > 0 {
+						for j := range f {
+							f[j].msg += fmt.Sprintf(" (teardown with %s at request #%d of the first pass)", fk, at)
+						}
+						out = append(out, f...)
+						trace = append(trace, pass.Trace()...)
+					}
+				}
+			}
+		}
 	}
 	if b.w.S.Objs[b.ownKey] == nil {
 		outcome = "teardown-done"
